@@ -15,7 +15,7 @@ RULE = {"C12": "exhaustive: every attribute name of StateMachine (public, privat
                "hierarchies (single / linear / diamond, 1-5 classes, overriding by state and by non-state) with k first and j "
                "default states after overriding.  Non-trivial = hierarchy with >=2 classes and >=1 override, or an exhaustive "
                "item; distinct = hash of the definition."}
-REQUIRED = {"C12": {"forbidden-name-rejected": 100, "illegal-signature-rejected": 100, "legal-signature-accepted": 48,
+REQUIRED = {"C12": {"alias-of-inherited-state-rejected": 27, "forbidden-name-rejected": 100, "illegal-signature-rejected": 100, "legal-signature-accepted": 48,
                     "alias-rejected": 3, "outside-statemachine-rejected": 3, "direct-call-rejected": 50,
                     "hier-accepted": 100, "hier-no-first": 30, "hier-multiple-first": 30, "hier-multiple-default": 30,
                     "hier-override-by-state": 50, "hier-override-by-nonstate": 20, "hier-diamond": 30,
@@ -128,6 +128,25 @@ def run_item(acc, item):
                 acc.violation("C12/alias-wrong-error", f"aliased state raised {e!r}, expected InvalidStateName", item, {})
             return
         acc.violation("C12/alias-accepted", f"state n1 bound as attribute {item['alias']!r} was accepted", item, {})
+    elif k == "alias-sub":
+        # a subclass (or a class that mixes the owner in, or a grandchild) re-exports an inherited state under another name
+        dec = item["dec"]
+        try:
+            st = decs[dec](_fn("n1", "self"), **({"first": True} if dec != "default_state" else {}))
+            base = type("B", (SM,), {"n1": st})
+            if item["via"] == "grandchild":
+                base = type("M", (base,), {})
+            elif item["via"] == "mixin":
+                base = type("M", (type("Other", (SM,), {}), base), {})
+            type("T", (base,), {item["alias"]: getattr(base, "n1")})
+        except Exception as e:  # noqa
+            if _is(e, smm.InvalidStateName):
+                acc.ev("alias-rejected")
+                acc.ev("alias-of-inherited-state-rejected")
+            else:
+                acc.violation("C12/alias-wrong-error", f"inherited state re-exported as {item['alias']!r} raised {e!r}, expected InvalidStateName", item, {})
+            return
+        acc.violation("C12/alias-accepted", f"inherited state n1 bound as attribute {item['alias']!r} of a {item['via']} class was accepted", item, {})
     elif k == "outside":
         dec = item["dec"]
         try:
@@ -168,6 +187,9 @@ def exhaustive_items():
             items.append({"kind": "alias", "dec": dec, "alias": alias, "order": order})
         for base in ("object", "plain"):
             items.append({"kind": "outside", "dec": dec, "base": base})
+        for via in ("child", "grandchild", "mixin"):
+            for alias in ("other", "n2", "_n1"):
+                items.append({"kind": "alias-sub", "dec": dec, "via": via, "alias": alias})
     return items
 
 
